@@ -158,6 +158,83 @@ post_recv(void)
 	ws_str_recv(ws, raio);
 }
 
+// ---------------------------------------------------------------- queue mode (ops qcfg/post/cancel/fini)
+// In queue mode no receive is posted by the harness: receives are posted (`post`), cancelled
+// (`cancel`) and completed under the control of the op list, and bytes that arrive while the frame
+// layer has no read outstanding stay in `inbuf` (the transport's buffer) until the next read.
+#define QN 64
+static bool     qmode;
+static nng_aio *qaio[QN];
+static uint8_t *qbuf[QN];
+static size_t   qcap[QN];
+static bool     qarmed[QN];
+static size_t   used; // bytes handed to ws_read_cb so far
+static char    *dn;
+static size_t   dnlen, dncap;
+
+static void
+dn_put(const char *s)
+{
+	size_t n = strlen(s);
+	if (dnlen + n + 2 > dncap) {
+		dncap = (dnlen + n + 2) * 2;
+		dn    = realloc(dn, dncap);
+	}
+	if (dnlen) {
+		dn[dnlen++] = ',';
+	}
+	memcpy(dn + dnlen, s, n);
+	dnlen += n;
+	dn[dnlen] = 0;
+}
+
+// report every posted receive that has completed (in id order; an aio completes at most once per op)
+static void
+q_collect(void)
+{
+	for (int i = 0; i < QN; i++) {
+		char t[96];
+		int  rv;
+		if (!qarmed[i] || nni_aio_list_active(qaio[i])) {
+			continue;
+		}
+		nng_aio_wait(qaio[i]);
+		qarmed[i] = false;
+		rv        = nng_aio_result(qaio[i]);
+		if (rv != 0) {
+			snprintf(t, sizeof(t), "%d:%d", i, rv);
+		} else if (ws != NULL && ws->isstream) {
+			size_t n = nng_aio_count(qaio[i]);
+			snprintf(t, sizeof(t), "%d:0:%zu:%016" PRIx64, i, n, fnv64(qbuf[i], n));
+		} else {
+			nng_msg *m = nng_aio_get_msg(qaio[i]);
+			snprintf(t, sizeof(t), "%d:0:%zu:%016" PRIx64, i, nng_msg_len(m), fnv64(nng_msg_body(m), nng_msg_len(m)));
+			nng_aio_set_msg(qaio[i], NULL);
+			nng_msg_free(m);
+		}
+		dn_put(t);
+	}
+}
+
+static void
+q_status(const char *op)
+{
+	size_t    nq = 0, nw = 0;
+	ws_frame *f;
+	nng_aio  *a;
+	q_collect();
+	NNI_LIST_FOREACH (&ws->rxq, f) {
+		nq++;
+	}
+	NNI_LIST_FOREACH (&ws->recvq, a) {
+		nw++;
+	}
+	printf("%s want=%zu closed=%d inmsg=%d ev=%s done=%s used=%zu q=%zu w=%zu\n", op, rd.pending ? rd.len : (size_t) 0,
+	    ws->closed ? 1 : 0, ws->inmsg ? 1 : 0, evlen ? ev : "-", dnlen ? dn : "-", used, nq, nw);
+	evlen = 0;
+	dnlen = 0;
+}
+
 static void
 pump_writes(void)
 {
@@ -211,12 +288,13 @@ feed(const uint8_t *b, size_t n)
 	while (rd.pending && (inlen - pos) >= rd.len) {
 		memcpy(rd.buf, inbuf + pos, rd.len);
 		pos += rd.len;
+		used += rd.len;
 		rd.pending = false;
 		ws_read_cb(ws);
 		pump_writes();
 		collect_recv();
 	}
-	if (!rd.pending) {
+	if (!rd.pending && !qmode) {
 		pos = inlen; // nobody reads any more: the bytes are never looked at
 	}
 	if (inlen > pos && pos > 0) {
@@ -236,6 +314,20 @@ teardown(void)
 	nni_aio_abort(&ws->closeaio, NNG_ECANCELED);
 	ws_fini(ws);
 	ws = NULL;
+	for (int i = 0; i < QN; i++) {
+		if (qarmed[i]) {
+			nng_msg *qm;
+			nng_aio_wait(qaio[i]);
+			qarmed[i] = false;
+			if (nng_aio_result(qaio[i]) == 0 && (qm = nng_aio_get_msg(qaio[i])) != NULL) {
+				nng_aio_set_msg(qaio[i], NULL);
+				nng_msg_free(qm);
+			}
+		}
+	}
+	qmode = false;
+	used  = 0;
+	dnlen = 0;
 	if (recv_armed) {
 		nng_aio_wait(raio);
 		recv_armed = false;
@@ -273,6 +365,10 @@ main(void)
 	nng_aio_set_timeout(saio, NNG_DURATION_INFINITE);
 	strbufsz = (size_t) 1 << 21;
 	strbuf   = malloc(strbufsz);
+	for (int i = 0; i < QN; i++) {
+		nng_aio_alloc(&qaio[i], NULL, NULL);
+		nng_aio_set_timeout(qaio[i], NNG_DURATION_INFINITE);
+	}
 
 	while (next_line()) {
 		if (vn == 0) {
@@ -290,7 +386,7 @@ main(void)
 			printf("ok\n");
 			continue;
 		}
-		if (strcmp(op, "cfg") == 0 && vn == 9) {
+		if ((strcmp(op, "cfg") == 0 || strcmp(op, "qcfg") == 0) && vn == 9) {
 			// cfg server isstream recvtext sendtext maxframe recvmax fragsize alloclimit
 			teardown();
 			if (ws_init(&ws) != 0) {
@@ -308,6 +404,12 @@ main(void)
 			ws->ready     = true;
 			nni_aio_set_timeout(&ws->closeaio, 600000); // keep the linger timer out of the way
 			lcg        = 0;
+			if (op[0] == 'q') {
+				// queue mode: nothing is posted, so nothing is read yet
+				qmode = true;
+				q_status("qcfg");
+				continue;
+			}
 			recv_armed = true;
 			post_recv();
 			status("cfg");
@@ -335,7 +437,68 @@ main(void)
 			printf("no-ws\n");
 			continue;
 		}
-		if (strcmp(op, "rx") == 0 && vn == 2) {
+		if (qmode && strcmp(op, "rx") == 0 && vn == 2) {
+			size_t   n;
+			uint8_t *b = parse_hex(vw[1], &n);
+			feed(b, n);
+			free(b);
+			q_status("rx");
+		} else if (qmode && strcmp(op, "post") == 0 && vn == 3) {
+			// post <i> <cap>: ws_str_recv on receive aio i (stream mode: one iov of exactly cap bytes)
+			int    i   = atoi(vw[1]);
+			size_t cap = strtoull(vw[2], NULL, 10);
+			if (i < 0 || i >= QN || qarmed[i]) {
+				printf("bad-op\n");
+				continue;
+			}
+			if (ws->isstream) {
+				nng_iov iov;
+				free(qbuf[i]);
+				qbuf[i]     = malloc(cap ? cap : 1);
+				qcap[i]     = cap;
+				iov.iov_buf = qbuf[i];
+				iov.iov_len = cap;
+				nng_aio_set_iov(qaio[i], 1, &iov);
+			}
+			qarmed[i] = true;
+			ws_str_recv(ws, qaio[i]);
+			feed(NULL, 0); // a read issued now is served from what the transport already holds
+			q_status("post");
+		} else if (qmode && strcmp(op, "cancel") == 0 && (vn == 2 || vn == 3)) {
+			// cancel <i> [rv]: the receive is aborted (timeout = NNG_ETIMEDOUT, nng_aio_cancel = NNG_ECANCELED)
+			int i  = atoi(vw[1]);
+			int rv = vn == 3 ? atoi(vw[2]) : NNG_ECANCELED;
+			if (i < 0 || i >= QN) {
+				printf("bad-op\n");
+				continue;
+			}
+			if (qarmed[i]) { // (aborting an idle aio would poison its next start: not a cancellation)
+				nng_aio_abort(qaio[i], rv);
+			}
+			q_status("cancel");
+		} else if (qmode && strcmp(op, "close") == 0) {
+			ws_close_error(ws, WS_CLOSE_NORMAL_CLOSE);
+			pump_writes();
+			q_status("close");
+		} else if (qmode && strcmp(op, "fini") == 0) {
+			// ws_str_free: close, then ws_fini releases the queued frames and fails what still waits;
+			// LeakSanitizer (at exit) is the witness that every queued frame was released
+			ws_close_error(ws, WS_CLOSE_NORMAL_CLOSE);
+			pump_writes();
+			nni_aio_abort(&ws->closeaio, NNG_ECANCELED);
+			ws_fini(ws);
+			ws = NULL;
+			q_collect();
+			printf("fini ev=%s done=%s\n", evlen ? ev : "-", dnlen ? dn : "-");
+			evlen = 0;
+			dnlen = 0;
+			teardown();
+			qmode      = false;
+			used       = 0;
+			rd.pending = false;
+			wr_pending = false;
+			inlen      = 0;
+		} else if (strcmp(op, "rx") == 0 && vn == 2) {
 			size_t   n;
 			uint8_t *b = parse_hex(vw[1], &n);
 			feed(b, n);
@@ -412,6 +575,11 @@ main(void)
 	// process exit: leave library threads alone (nng_fini would also be fine)
 	nng_aio_free(raio);
 	nng_aio_free(saio);
+	for (int i = 0; i < QN; i++) {
+		nng_aio_free(qaio[i]);
+		free(qbuf[i]);
+	}
+	free(dn);
 	free(strbuf);
 	free(inbuf);
 	free(ev);
